@@ -140,3 +140,19 @@ Theorem mk_count_from_indices_wf : forall k idx bits lv nm r, k <> KBit -> 0 <= 
   (forall i, In i idx -> 0 <= i) -> mk_count_from_indices k idx bits lv nm = Ok r -> wf_fp r.
 Proof. exact mk_count_from_indices_wf. Qed.
 Print Assumptions mk_count_from_indices_wf.
+
+(* ============ databases (model M3): as_type and cast-on-add keep the support; values as the target type stores them ============ *)
+From E3FP Require Import Model.Db Proofs.DbBase Proofs.DbSpec Proofs.DbFold.
+
+Theorem db_cast_row_support : forall k r, map fst (cast_row k r) = map fst r.
+Proof. exact cast_row_support. Qed.
+Print Assumptions db_cast_row_support.
+
+Theorem db_add_row_support : forall k a, map fst (fp_row k a) = fidx a.
+Proof. exact fp_row_support. Qed.
+Print Assumptions db_add_row_support.
+
+Theorem db_cast_values : forall q,
+  cast_to KFloat q = q /\ cast_to KCount q = qtrunc q /\ cast_to KBit q = (if Qeq_bool q 0 then 0%Q else 1%Q).
+Proof. exact cast_to_values. Qed.
+Print Assumptions db_cast_values.
